@@ -29,9 +29,10 @@ for f in $demos; do
   dir=$(dirname $f); mod=.; case $f in godev/*) mod=godev; dir=${dir#godev/};; esac
   tests=$(grep -o '^func Test[A-Za-z0-9_]*' $f | sed 's/func //' | paste -sd'|')
   ( cd $mod && go test -vet=off -count=1 -run "^($tests)\$" ./$dir ) > $out/demo_with_change.log 2>&1 && demo_with=pass || demo_with=FAIL
-  git stash -q -- $(git diff --name-only) 2>/dev/null
+  # (no git stash: the stash is shared by all worktrees of /repo)
+  git apply -R $out/patch.diff
   ( cd $mod && go test -vet=off -count=1 -run "^($tests)\$" ./$dir ) > $out/demo_without_change.log 2>&1 && demo_without=pass || demo_without=FAIL
-  git stash pop -q
+  git apply $out/patch.diff
 done
 echo "demo with change: $demo_with   without: $demo_without"
 # 3. our checks against it
@@ -45,7 +46,11 @@ for p in $props; do
   echo "check $p: exit $rc $inv"
   results="$results{\"property\":\"$p\",\"exit\":$rc,\"invariant\":\"$inv\"},"
   # keep the replay file out of the way
-  rp=$(grep -m1 '^VIOLATION' $out/check_$p.log | sed 's/.*replay=//'); [ -n "$rp" ] && [ -f "$rp" ] && mv "$rp" $out/replay_$p.json
+  rp=$(grep -m1 '^VIOLATION' $out/check_$p.log | sed 's/.*replay=//')
+  case "$rp" in
+    /verif/replays/fixed/*|/verif/replays/known/*) cp "$rp" $out/replay_$p.json;;   # a stored finding came back: keep the stored file in place
+    /verif/replays/*) [ -f "$rp" ] && mv "$rp" $out/replay_$p.json;;
+  esac
 done
 git -C /repo checkout -- .
 git -C /repo status --porcelain | grep -q . && echo "WARNING: /repo not clean after undo"
